@@ -216,7 +216,8 @@ def gen_case(rng, small=False):
     quantity = rng.choice(QUANT)
     kernel = rng.choice(["gaussian", "gaussian", "covariant"])
     parts = []
-    for _ in range(rng.choice([1, 1, 2, 3, 4])):
+    nparts = rng.choice([1, 1, 2, 3, 4, 0])       # 0: an empty particle list (e.g. everything filtered away)
+    for _ in range(nparts):
         pos = []
         for i in range(3):
             node = rng.randrange(n[i])
@@ -244,9 +245,11 @@ def gen_case(rng, small=False):
                       "baryon_number": rng.choice([-1, 0, 1, 1]), "strangeness": rng.choice([-3, -1, 0, 1, 2])})
     case = {"ext": ext, "n": n, "nsig": nsig, "sigma": sigma, "quantity": quantity, "kernel": kernel,
             "add": rng.random() < 0.4, "particles": parts}
-    if rng.random() < 0.5:
+    if rng.random() < 0.5 or not parts:
         case["prior"] = [float(rng.choice([0, 0, 1, 2, -1, 0.5])) for _ in range(n[0] * n[1] * n[2])]
     r = rng.random()
+    if not parts:
+        return case
     if r < 0.04:
         case["quantity"] = "entropy_density"
     elif r < 0.08:
